@@ -19,8 +19,8 @@ ASSUMPTIONS = ['oracle: the returned rotation maps both unit references onto bot
                'np.random.random is an owned seam returning each vector of a fixed menu',
                'OLEQ: tolerance max(1e-6, 1e-7 rho/(1-rho)) with rho the documented contraction ratio of its fixed-point iteration (stopping test 1e-8 on successive iterates)', 'accelerometer-only variants are judged on the gravity direction only']
 REQUIRED_CLASSES = ['S', 'Gp', 'tilt-only', 'pose:level', 'pose:inverted', 'pose:vertical', 'pose:half-turn']
-DIPS_Q = [-45.0, 60.0]
-DIPS_T = [-80.0, -45.0, -10.0, 10.0, 45.0, 60.0, 80.0]
+DIPS_Q = [-45.0, 0.0, 60.0]
+DIPS_T = [-80.0, -45.0, -10.0, 0.0, 1e-9, 10.0, 45.0, 60.0, 80.0]
 SCAL_Q = [(1.0, 1.0), (9.81, 45.0)]
 SCAL_T = [(1.0, 1.0), (9.81, 45.0), (1e-3, 1e3), (1e3, 1e-3)]
 TOL = {'S': 1e-9, 'Gp': 1e-6}
@@ -49,6 +49,27 @@ def attitudes(cls, k):
             for i, q in enumerate(S):
                 if rf.general_position(q):
                     out.append((f'{name}[{i}]', q))
+        # just inside the general-position region: x-axis 3.5 / 5 / 8 degrees from the vertical (up and down), z-axis 3.5 / 5 degrees from
+        # the vertical, rotation angle pi - 0.1 - 1e-3, each with generic heading and roll
+        edge = []
+        for off in (3.5, 5.0, 8.0):
+            for sgn in (1.0, -1.0):
+                for roll in (0.7, -2.0):
+                    for yaw in (0.4, 2.5):
+                        # pitch sgn*(90 - off): body x-axis off degrees from the vertical
+                        edge.append((f'x-axis {off}deg from vertical sgn={sgn:g} roll={roll} yaw={yaw}',
+                                     rq.rpy2q(roll, sgn * math.radians(90.0 - off), yaw)))
+        for off in (3.5, 5.0):
+            for az in (0.3, 1.9, -2.2):
+                for yaw in (0.4, -2.5):
+                    tilt = rq.axang2q([math.cos(az), math.sin(az), 0.0], math.radians(off))
+                    edge.append((f'z-axis {off}deg from vertical az={az} yaw={yaw}', rq.qmul(rq.axang2q([0, 0, 1], yaw), tilt)))
+                    edge.append((f'z-axis {off}deg from inverted az={az} yaw={yaw}', rq.qmul(rq.qmul(rq.axang2q([0, 0, 1], yaw), tilt), rq.axang2q([1, 0.3, 0], math.pi - 0.5))))
+        for ax in ((1, 2, 3), (-3, 1, 2), (2, -1, 3)):
+            edge.append((f'angle pi-0.101 about {ax}', rq.axang2q(ax, math.pi - 0.101)))
+        for lab, q in edge:
+            if rf.general_position(q):
+                out.append((lab, q))
     return out
 
 
@@ -132,6 +153,8 @@ def job_est(ctx, ename, k, lo, hi):
             for dip in (dips + [extra_dip] if (extra_dip is not None and (lo + ai) % 6 == 0) else dips):
                 _decoy(ename)
                 g, m = est.refs(dip, frame)
+                if abs(float(g @ m)) > 0.9999:
+                    continue                # collinear references (OLEQ's NED magnetic reference at 0 is vertical): excluded by the statement
                 for sa, sm in scal:
                     a, mg = est.measurements(Rt, dip, frame, sa, sm)
                     # estimators that weight the raw (unnormalised) vectors lose digits in proportion to the magnitude ratio
